@@ -32,6 +32,10 @@ type Document struct {
 	parts map[string][]byte
 	// 图片ID计数器，确保每个图片都有唯一的ID
 	nextImageID int
+	// 脚注/尾注管理器（每个文档独立，按需创建）
+	footnoteManager *FootnoteManager
+	// 编号管理器（每个文档独立，按需创建）
+	numberingManager *NumberingManager
 	// stylesGenerated 表示 parts 中的 word/styles.xml 是由本文档的样式管理器生成的
 	// （而不是从已有文档/模板中读取的），因此每次保存时都可以安全地重新生成
 	stylesGenerated bool
